@@ -48,7 +48,7 @@ def tag(v):
     if isinstance(v, (list, tuple)):
         return {"k": "arr", "a": [tag(x) for x in v]}
     if isinstance(v, dict):
-        if "k" in v and v["k"] in ("null", "bool", "int", "float", "str", "arr", "obj", "file", "fstr"):
+        if "k" in v and v["k"] in ("null", "bool", "int", "big", "float", "str", "arr", "obj", "file", "fstr"):
             return v
         return {"k": "obj", "o": {k: tag(x) for k, x in v.items()}}
     raise TypeError(v)
@@ -62,6 +62,8 @@ def untag(v):
         return v["b"]
     if k == "int":
         return v["i"]
+    if k == "big":
+        return int(v["s"])
     if k == "float":
         return float(v["f"])
     if k == "str":
@@ -209,6 +211,8 @@ def render_value(v, t=None, prog=None):
         return "true" if v["b"] else "false"
     if k == "int":
         return str(v["i"])
+    if k == "big":
+        return v["s"]
     if k == "float":
         return v["f"]
     if k == "str":
